@@ -13,8 +13,20 @@ from harness import gen_classify as G
 STEPS = [1800, 3600, 1200]
 
 
-def gen_curves_record(rng, ncycles=None, grid=None, size='small', gaps=None):
+# depth of a recession as a fraction of the rise before it. None = the record returns to about the
+# same level after every storm (the rise curve then tends to have as many levels as the recession curve,
+# or a few more); 'shallow' = large storms with short recessions: the record climbs and the recessions
+# cover a smaller range of levels than the rises (but still overlap one another: fraction > 1/2);
+# 'deep' = the record sinks and the recessions cover a larger range than the rises (as in the field
+# samples of the repository; rises still overlap: fraction < 2)
+FALL_FRACTIONS = {None: [0.8, 1.0, 1.1], 'shallow': [0.55, 0.625, 0.7], 'deep': [1.3, 1.5, 1.7]}
+
+
+def gen_curves_record(rng, ncycles=None, grid=None, size='small', gaps=None, shape=None):
     """A saw-tooth record: storm (heavy rain + fast rise) / long dry recession, repeated.
+
+    `shape` (None / 'shallow' / 'deep', see FALL_FRACTIONS) selects how far each recession
+    falls relative to the rise before it; the default draws exactly what it always drew.
 
     All values are dyadic (multiples of 1/8 mm) so that SQLite's text->double
     conversion at load is exact. Returns a record with the extra keys
@@ -47,7 +59,7 @@ def gen_curves_record(rng, ncycles=None, grid=None, size='small', gaps=None):
             zeta.append(z)
         lr = rng.randrange(6, 14) if size == 'small' else rng.randrange(10, 30)
         total_up = zeta[-1] - zeta[-1 - ls]
-        fall = max(0.125, round(total_up / lr * 8 * rng.choice([0.8, 1.0, 1.1])) / 8)
+        fall = max(0.125, round(total_up / lr * 8 * rng.choice(FALL_FRACTIONS[shape])) / 8)
         # light rain after the burst: the sample that closes the fast rise must be rainy,
         # otherwise everything up to the next rain is flagged as an unexplained rise
         for _ in range(rng.randrange(1, 3)):
